@@ -265,6 +265,7 @@ func (j *Join) ParallelJoinFunc(l, r *HashedTable) ([]any, error) {
 func (j *Join) JoinMatchFunc(lk string, lv *map[string]any, l, r *HashedTable) (bool, []any, error) {
 	slice := make([]any, 0)
 	b := false
+	matched := false
 	for rk, rv := range r.Keys {
 		_current := make(Map)
 		maps.Copy(_current, *lv)
@@ -277,9 +278,9 @@ func (j *Join) JoinMatchFunc(lk string, lv *map[string]any, l, r *HashedTable) (
 		if !ok {
 			return false, nil, INVALID_TYPE.Extend(fmt.Sprintf("failed to build `JOIN` expression, expected boolean but found %T", rsValue))
 		}
-		if rsValue || !j.joinType.IsInner() {
-			b = true
-			if len(j.into) != 0 {
+		if len(j.into) != 0 {
+			if rsValue || !j.joinType.IsInner() {
+				b = true
 				current := make(Map)
 				if err := Copy(current, l.Rows[lk], j.leftIdent); err != nil {
 					return false, nil, err
@@ -295,23 +296,31 @@ func (j *Join) JoinMatchFunc(lk string, lv *map[string]any, l, r *HashedTable) (
 				out := make(Map)
 				out[j.into] = current
 				slice = append(slice, out)
-				continue
 			}
+			continue
+		}
+		// a pair is emitted only when the condition holds
+		if rsValue {
+			b = true
+			matched = true
 			for _, lr := range l.Rows[lk] {
-				if len(r.Rows) > 0 {
-					for _, rr := range r.Rows[rk] {
-						mapper := make(Map)
-						maps.Copy(mapper, (*lr).(Map))
-						maps.Copy(mapper, (*rr).(Map))
-						slice = append(slice, mapper)
-					}
-					continue
+				for _, rr := range r.Rows[rk] {
+					mapper := make(Map)
+					maps.Copy(mapper, (*lr).(Map))
+					maps.Copy(mapper, (*rr).(Map))
+					slice = append(slice, mapper)
 				}
-				mapper := make(Map)
-				maps.Copy(mapper, (*lr).(Map))
-				mapper[j.rightIdent] = nil
-				slice = append(slice, mapper)
 			}
+		}
+	}
+	// outer joins keep the rows without a partner exactly once
+	if len(j.into) == 0 && !matched && !j.joinType.IsInner() {
+		b = true
+		for _, lr := range l.Rows[lk] {
+			mapper := make(Map)
+			maps.Copy(mapper, (*lr).(Map))
+			mapper[j.rightIdent] = nil
+			slice = append(slice, mapper)
 		}
 	}
 	return b, slice, nil
